@@ -190,4 +190,98 @@ theorem runMores_reverse : ∀ (ks : List Nat), (∀ k ∈ ks, 1 ≤ k) → ∀ 
     simp only [runMores, moreStep_reverse k hk r, List.flatten_cons, List.sum_cons, this.1, this.2,
       List.take_add, List.drop_drop, and_self]
 
+theorem take_drop_cons {α : Type} : ∀ (n : Nat) (l : List α) (x : α) (xs : List α), l.drop n = x :: xs →
+    l.take (n + 1) = l.take n ++ [x] ∧ l.drop (n + 1) = xs ∧ n < l.length := by
+  intro n
+  induction n with
+  | zero => intro l x xs h; simp at h; subst h; simp
+  | succ n ih =>
+    intro l x xs h
+    cases l with
+    | nil => simp at h
+    | cons a l' =>
+      simp only [List.drop_succ_cons] at h
+      obtain ⟨h1, h2, h3⟩ := ih l' x xs h
+      simp only [List.take_succ_cons, List.drop_succ_cons, List.length_cons]
+      exact ⟨by rw [h1]; simp, h2, by omega⟩
+
+/-- the messages of a chunked reply in the order in which they are delivered -/
+def deliveryOrder (e : Env) (lines : List Str) : List Out := (buildMsgs e lines.reverse []).reverse
+
+theorem reply_chunked (e : Env) (cfg : Cfg) (chunks : List Str) (s : Str) (allowed : Nat) (s1 : Str)
+    (hprep : prepare e cfg s = some (allowed, s1, false))
+    (hres : suffixReserve (blen s1) ≤ allowed)
+    (lines : List Str) (hwrap : ircWrap chunks s1 (allowed - suffixReserve (blen s1)) = .ok lines) :
+    reply e cfg chunks s = .sent ((deliveryOrder e lines).take (max cfg.instant 1))
+      (if (deliveryOrder e lines).length < max cfg.instant 1 then none
+       else some ((deliveryOrder e lines).drop (max cfg.instant 1)).reverse) := by
+  unfold reply
+  rw [hprep]
+  simp only [Bool.false_eq_true, ↓reduceIte, show ¬ (allowed < suffixReserve (blen s1)) by omega, hwrap]
+  have hm : buildMsgs e lines.reverse [] = (deliveryOrder e lines).reverse := by simp [deliveryOrder]
+  rw [hm, instantLoop_reverse]
+  simp only [List.nil_append]
+  rw [popLast_reverse]
+  cases hd : List.drop (cfg.instant - 1) (deliveryOrder e lines) with
+  | nil =>
+    have hlen : (deliveryOrder e lines).length ≤ cfg.instant - 1 := List.drop_eq_nil_iff.mp hd
+    simp only
+    have h1 : (deliveryOrder e lines).length < max cfg.instant 1 := by omega
+    simp only [h1, ↓reduceIte]
+    congr 1
+    rw [List.take_of_length_le hlen, List.take_of_length_le (by omega)]
+  | cons x xs =>
+    obtain ⟨h1, h2, h3⟩ := take_drop_cons _ _ _ _ hd
+    have hmax : max cfg.instant 1 = cfg.instant - 1 + 1 := by omega
+    simp only
+    rw [hmax, h1, h2]
+    simp only [show ¬ ((deliveryOrder e lines).length < cfg.instant - 1 + 1) by omega, ↓reduceIte]
+
+theorem mem_deliveryOrder (e : Env) (lines : List Str) (o : Out) (h : o ∈ deliveryOrder e lines) :
+    ∃ j l, j < lines.length ∧ l ∈ lines ∧ o = makeReply e (withSuffix j l) := by
+  unfold deliveryOrder at h
+  rw [List.mem_reverse, buildMsgs_eq, List.nil_append, List.mem_mapIdx] at h
+  obtain ⟨i, hi, rfl⟩ := h
+  simp only [List.length_nil, Nat.zero_add]
+  rw [List.length_reverse] at hi
+  exact ⟨i, lines.reverse[i], hi, List.mem_reverse.mp (List.getElem_mem _), rfl⟩
+
+theorem deliveryOrder_length (e : Env) (lines : List Str) : (deliveryOrder e lines).length = lines.length := by
+  simp [deliveryOrder, buildMsgs_eq]
+
+/-- the `k`-th message delivered (0-based) carries the `k`-th line and the count `n - 1 - k` -/
+theorem deliveryOrder_getElem? (e : Env) (lines : List Str) (k : Nat) :
+    (deliveryOrder e lines)[k]? =
+      (lines[k]?).map (fun l => makeReply e (withSuffix (lines.length - 1 - k) l)) := by
+  unfold deliveryOrder
+  rw [buildMsgs_eq, List.nil_append]
+  by_cases hk : k < lines.length
+  · rw [List.getElem?_reverse (by simpa using hk)]
+    simp only [List.length_mapIdx, List.length_reverse, List.getElem?_mapIdx, List.length_nil, Nat.zero_add]
+    rw [List.getElem?_reverse (by omega)]
+    have : lines.length - 1 - (lines.length - 1 - k) = k := by omega
+    rw [this]
+  · rw [List.getElem?_eq_none (by simpa using Nat.le_of_not_lt hk), List.getElem?_eq_none (Nat.le_of_not_lt hk)]
+    rfl
+
+theorem prepare_auto (ht : TextsOk) (hc : ConstsOk) (e : Env) (cfg : Cfg) (s : Str) (allowed : Nat) (s1 : Str) (b : Bool)
+    (hauto : cfg.moresLength = 0) (hprep : prepare e cfg s = some (allowed, s1, b)) :
+    frameLen e + allowed = 512 ∧ s1 = truncate allowed cfg s ∧ b = (decide (blen s1 ≤ allowed) || !cfg.mores) := by
+  unfold prepare allowedLength at hprep
+  simp only [hauto, ne_eq, not_true_eq_false, ↓reduceIte] at hprep
+  rw [autoLength_eq ht] at hprep
+  have hmax : Gen.maxLine = 512 := hc.2.2.2.2.2.2.1
+  split at hprep
+  · cases hprep
+  · rename_i a heq
+    split at heq
+    · rename_i hlt
+      injection heq with heq
+      simp only [Option.some.injEq, Prod.mk.injEq] at hprep
+      obtain ⟨h1, h2, h3⟩ := hprep
+      subst h1
+      refine ⟨by omega, h2.symm, ?_⟩
+      rw [← h3, ← h2]
+    · cases heq
+
 end C12
